@@ -41,6 +41,7 @@ REQUIRED_MONITORS = ['contract:PLSSDesc.parse', 'contract:Tract.parse',
                      'relation:entry-points', 'relation:fresh-before-after',
                      'relation:config-applied',
                      'relation:parse_tracts-after-parse',
+                     'relation:parse_tracts-leaves-description',
                      'tract-relation:replay']
 
 TEXTS = [
@@ -285,6 +286,17 @@ def run_plss(case, ctx, rep, pytrs):
         for i, op in enumerate(ops):
             before = dsnap(d)
             apply(d, op)
+            if op[0] == 'parse_tracts':
+                # Re-parsing the tracts is the tracts' business: nothing of
+                # the description itself (its flags, text, layout) changes.
+                ctx.hit('relation:parse_tracts-leaves-description')
+                if dsnap(d)[2:] != before[2:]:
+                    ctx.violation(
+                        'parse_tracts-changes-description', case,
+                        f"op #{i} {op} changed the PLSSDesc itself: "
+                        f"{first_diff(before[2:], dsnap(d)[2:], DNAMES[2:])}",
+                        dedup='parse_tracts-desc')
+                    return
             if op[0] == 'config':
                 ctx.hit('relation:config-applied')
                 why = config_not_applied(d, op[1])
@@ -369,7 +381,27 @@ def run_plss(case, ctx, rep, pytrs):
         # Every entry point that re-parses the tracts with unchanged
         # settings reproduces the same results.
         ctx.hit('relation:entry-points')
+        own = dsnap(d)[2:]
         d.parse_tracts()
+        if dsnap(d)[2:] != own:
+            ctx.violation(
+                'parse_tracts-changes-description', case,
+                f"parse_tracts() after the history changed the PLSSDesc "
+                f"itself: {first_diff(own, dsnap(d)[2:], DNAMES[2:])}",
+                dedup='parse_tracts-desc')
+            return
+        # ... and parsing one tract leaves its siblings alone.
+        for k, t in enumerate(d.tracts[:3]):
+            others = [tsnap(o) for o in d.tracts if o is not t]
+            t.parse()
+            if [tsnap(o) for o in d.tracts if o is not t] != others \
+                    or dsnap(d)[2:] != own:
+                ctx.violation(
+                    'tract-parse-changes-siblings', case,
+                    f"Tract.parse() on tract #{k} changed another tract of "
+                    f"the same description or the description itself",
+                    dedup='siblings')
+                return
         s1 = dcmp(d)
         for label, redo in (
                 ('PLSSDesc.tracts.parse_tracts()',
